@@ -320,3 +320,28 @@ Qed.
 
 Lemma tables_tie : catches_agree current head = true.
 Proof. vm_compute. reflexivity. Qed.
+
+(* ---- config.log_decision as a function of its arguments (function-level correspondence `log_entry`) *)
+Definition is_given {T} (o : option T) : bool := match o with Some _ => true | None => false end.
+Lemma direct_entry_keys full d c r m cmd ts :
+  map fst (entry full d c r m cmd ts) =
+  [$"decision"; $"cmd"] ++ (if is_given r then [$"rule"] else []) ++ (if is_given m then [$"message"] else [])
+  ++ (if full && is_given cmd then [$"command"] else []) ++ [$"ts"].
+Proof. destruct full, r, m, cmd; reflexivity. Qed.
+Lemma direct_entry_command_iff full d c r m cmd ts :
+  In ($"command") (map fst (entry full d c r m cmd ts)) <-> full = true /\ cmd <> None.
+Proof.
+  rewrite direct_entry_keys. destruct full, r, m, cmd; cbn; split; intro H;
+    repeat match goal with
+           | H : _ \/ _ |- _ => destruct H
+           | H : _ /\ _ |- _ => destruct H
+           | H : False |- _ => destruct H
+           end; try discriminate; try congruence; try (split; [reflexivity | discriminate]); auto 10.
+Qed.
+Lemma direct_entry_values full d c r m cmd ts :
+  In ($"decision", d) (entry full d c r m cmd ts) /\ In ($"cmd", c) (entry full d c r m cmd ts) /\
+  In ($"ts", ts) (entry full d c r m cmd ts) /\
+  (forall x, cmd = Some x -> full = true -> In ($"command", x) (entry full d c r m cmd ts)).
+Proof.
+  unfold entry, opt_field. repeat split; try (intros x -> ->); rewrite ?in_app_iff; cbn; auto 10.
+Qed.
